@@ -5,7 +5,8 @@ import json, os, subprocess, sys, glob, time
 sys.path.insert(0, os.path.dirname(os.path.abspath(__file__)))
 import mutest
 
-out = json.load(open('/verif/seeded/REGRESSION.json')) if (len(sys.argv) > 1 and os.path.exists('/verif/seeded/REGRESSION.json')) else {}
+OUT = os.environ.get('REGRESS_OUT', '/verif/seeded/REGRESSION.json')
+out = json.load(open(OUT)) if (len(sys.argv) > 1 and os.path.exists(OUT)) else {}
 ids = sorted(d for d in os.listdir("/verif/seeded") if os.path.exists("/verif/seeded/%s/meta.json" % d))
 only = sys.argv[1:]
 for i in ids:
@@ -22,5 +23,5 @@ for i in ids:
     det = res["rc"] == 1 and any(l.startswith("VIOLATION property=%s" % pids[0]) for l in res["lines"])
     out[i] = {"property": pids[0], "detected": det, "rc": res["rc"], "first_line": (res["lines"] or [""])[0][:160], "wall_s": round(time.time() - t)}
     print(i, "DETECTED" if det else "MISSED", out[i]["first_line"], flush=True)
-    json.dump(out, open("/verif/seeded/REGRESSION.json", "w"), indent=1)
+    json.dump(out, open(OUT, "w"), indent=1)
 print("detected %d of %d" % (sum(1 for v in out.values() if v["detected"]), len(out)))
